@@ -136,24 +136,42 @@ def r04_2(chk, facts):
            f['n'] in ('dec_to_integer', 'to_integer', 'hex_to_integer')]
     n = 0; seen = set()
     for fn in fns:
-        # signed wrapper: declares local `sign` / `is_negative` and calls the unsigned overload
-        if not any(d.get('k') == 'VarDecl' and d.get('n') in ('sign', 'is_negative') for d in A.walk_no_lambda(fn['body'])): continue
+        # signed wrapper: a bool local initialised from a comparison of an input character with '-' (whatever it is called)
+        sign_ids = set()
+        for d in A.walk_no_lambda(fn['body']):
+            if d.get('k') == 'VarDecl' and d.get('init') is not None and any(
+                    y.get('k') == 'BinaryOperator' and y.get('op') == '==' and 45 in (A.const(y.get('lhs')), A.const(y.get('rhs'))) for y in A.walk(d['init'])):
+                sign_ids.add(d['id'])
+        if not sign_ids: continue
+        def is_sign(a):
+            a = A.strip(a, casts=True)
+            return a is not None and a.get('k') == 'DeclRefExpr' and a.get('id') in sign_ids
         vt = fn['_types'][fn['params'][-1]['t'] - 1].replace(' &', '')
         mx = type_max(vt)
         if mx is None: continue
         g = C.CFG(fn['body'])
+        al = A.pure_aliases(fn['body'])
         chk.analysed(fn)
         neg_ok = pos_ok = False
         for nd in g.rpo:
             if nd.kind != 'cond': continue
             cmp_ = G.comparison(nd.ast)
             if not cmp_ or cmp_[0] != '>': continue
-            K = A.const(cmp_[2])
-            if K is None: continue
             rej = [e for e in nd.succ if e.label is True]
             if not rej or not returns_out_of_range(g, rej[0]): continue
-            sign_true = any(A.ref_name(a) in ('sign', 'is_negative') and lab is True for a, lab, e in g.guards(nd))
-            sign_false = any(A.ref_name(a) in ('sign', 'is_negative') and lab is False for a, lab, e in g.guards(nd))
+            K = A.const(cmp_[2])
+            rhs = A.strip(cmp_[2], casts=True)
+            if K is None and rhs is not None and rhs.get('k') == 'DeclRefExpr' and rhs.get('id') in al:
+                K = A.const(al[rhs['id']])
+                rhs = A.strip(al[rhs['id']], casts=True)
+            if K is None and rhs is not None and rhs.get('k') == 'ConditionalOperator' and is_sign(rhs.get('cond')):
+                # one test against `sign ? limit for negatives : limit for positives`
+                if A.const(rhs.get('then')) == mx + 1: neg_ok = True
+                if A.const(rhs.get('else')) == mx: pos_ok = True
+                continue
+            if K is None: continue
+            sign_true = any(is_sign(a) and lab is True for a, lab, e in g.guards(nd))
+            sign_false = any(is_sign(a) and lab is False for a, lab, e in g.guards(nd))
             if sign_true and K == mx + 1: neg_ok = True
             if sign_false and K == mx: pos_ok = True
         site = U.site(fn, 'sign limits T=%s' % vt)
